@@ -170,6 +170,7 @@ func inprocCase(c *core.Ctx, work string, fo *forest, f family, idx, L int) {
 	c.Event("pack.ok", 1)
 	geo := locate(res.target, L)
 	c.Event("marker-at."+geo.String(), 1)
+	c.Event("aligned."+alignedClass(L), 1)
 	if len(res.target) < L+len(refMarker) || !bytes.Equal(res.target[:L], filler) || string(res.target[L:L+len(refMarker)]) != refMarker {
 		c.Violation("pack:layout", "the packed file is not <source binary><marker line><archive>", f.stream, idx,
 			detail(map[string]interface{}{"target_len": len(res.target)}))
